@@ -33,7 +33,18 @@
      returns `Ok ()` and it makes no progress ([TBlocked]).  `yield ()` on the main thread wakes
      itself and continues (channel.rs:195-207): a no-op.
 
-   Thread ids: the main thread is 0, the k-th spawned coroutine is [S k].
+   * coroutines operating on coroutines: a thread handle captured by another coroutine can be
+     resumed from there (`resume` only looks at the target: channel.rs:180-193 — no relation
+     between the resuming and the resumed thread is required), and a coroutine can `spawn`
+     coroutines of its own (`spawn` creates a child of the calling thread, channel.rs:212).  A
+     coroutine resumed from a coroutine that yields (or blocks) returns control to its resumer,
+     which continues.  Threads carry a static label (the position of their `spawn` in the
+     program text, assigned by the harness): a thread that is running is marked [TRunning];
+     resuming a running thread cannot be written in a lexically scoped straight-line Gluon
+     program (a body only sees handles bound before its own `spawn`, or its own children) and
+     is reported as [EBad].
+
+   Thread ids: the main thread is 0, the coroutine with label k is [S k].
    Values are small naturals (the harness uses the position of the operation as value). *)
 From Coq Require Import List Arith Bool.
 Import ListNotations.
@@ -64,19 +75,20 @@ Inductive bop :=
 | BLoad (r : nat)
 | BStore (r v : nat)
 | BForce (l : nat)
-| BYield.
+| BYield
+| BResume (t : nat)                       (* resume the coroutine with label t *)
+| BSpawn (lab : nat) (body : list bop).   (* spawn (do body) : the new coroutine gets label lab *)
 
 Inductive op :=
 | OB (b : bop)                 (* a basic operation on the main thread *)
 | ORef (v : nat)               (* ref v          : allocates the next reference *)
-| OLazy (b : lbody)            (* lazy (\_ -> b) : allocates the next lazy value *)
-| OSpawn (body : list bop)     (* spawn (do body): allocates the next coroutine *)
-| OResume (t : nat).           (* resume t *)
+| OLazy (b : lbody).           (* lazy (\_ -> b) : allocates the next lazy value *)
 
 Inductive tstate :=
 | TFresh (body : list bop)     (* spawned, never resumed *)
 | TSusp (rest : list bop)      (* yielded, [rest] still to run *)
 | TBlocked                     (* waits for ever inside `force` (pending future never woken) *)
+| TRunning                     (* being run by a resume further up the call chain *)
 | TDone.                       (* body finished: "dead" *)
 
 (* ---- observations ---- *)
@@ -95,15 +107,16 @@ Inductive event :=
 | ERun (tid l : nat)                            (* the body of lazy l starts running on tid *)
 | EForce (vis : bool) (tid l : nat) (res : fres)
 | EYield (tid : nat)
-| ESpawn (t : nat)
-| EResume (t : nat) (res : rres)
+| ESpawn (tid t : nat)                          (* thread tid spawned the coroutine labelled t *)
+| EResume (tid t : nat) (res : rres)            (* thread tid resumed t *)
+| EFuel                                          (* the model's recursion bound was hit *)
 | EBad.                                          (* ill-scoped operation: not a Gluon program *)
 
 Record state := mkState {
   chans : list (list nat);
   refs : list nat;
   lazies : list lstate;
-  threads : list tstate;
+  threads : list (nat * tstate);                 (* label -> state, in spawn order *)
   hung : bool                                    (* the main thread waits for ever *)
 }.
 
@@ -175,7 +188,7 @@ Definition set_rl (st : state) (x : list nat) (y : list lstate) : state :=
   mkState (chans st) x y (threads st) (hung st).
 Definition set_lazies (st : state) (y : list lstate) : state :=
   mkState (chans st) (refs st) y (threads st) (hung st).
-Definition set_threads (st : state) (x : list tstate) : state :=
+Definition set_threads (st : state) (x : list (nat * tstate)) : state :=
   mkState (chans st) (refs st) (lazies st) x (hung st).
 Definition set_hung (st : state) : state :=
   mkState (chans st) (refs st) (lazies st) (threads st) true.
@@ -207,58 +220,95 @@ Definition bstep (m : mode) (tid : nat) (b : bop) (st : state) : state * list ev
       let '(rs, ls, ev, r) := force m (S (length (lazies st))) tid true l (refs st) (lazies st) in
       (set_rl st rs ls, ev, match r with FHang => SHang | _ => SCont end)
   | BYield => (st, [EYield tid], SYield)
+  | BResume _ | BSpawn _ _ => (st, [EBad], SCont)      (* handled by [exec] *)
   end.
 
-(* a coroutine body runs until it yields, blocks or ends *)
-Fixpoint run_body (m : mode) (tid : nat) (body : list bop) (st : state) : state * list event * tstate :=
-  match body with
-  | [] => (st, [], TDone)
-  | b :: rest =>
-      let '(st1, ev, s) := bstep m tid b st in
-      match s with
-      | SCont => let '(st2, ev2, ts) := run_body m tid rest st1 in (st2, ev ++ ev2, ts)
-      | SYield => (st1, ev, TSusp rest)
-      | SHang => (st1, ev, TBlocked)
+(* ---- thread table ---- *)
+Fixpoint lookup (t : nat) (ths : list (nat * tstate)) : option tstate :=
+  match ths with
+  | [] => None
+  | (k, x) :: r => if Nat.eqb k t then Some x else lookup t r
+  end.
+
+Fixpoint setth (t : nat) (x : tstate) (ths : list (nat * tstate)) : list (nat * tstate) :=
+  match ths with
+  | [] => []
+  | (k, y) :: r => if Nat.eqb k t then (k, x) :: r else (k, y) :: setth t x r
+  end.
+
+(* a coroutine body runs until it yields, blocks or ends; [ex] executes one operation *)
+Definition run_with (ex : nat -> bop -> state -> state * list event * status) (tid : nat)
+  : list bop -> state -> state * list event * tstate :=
+  fix run (body : list bop) (st : state) : state * list event * tstate :=
+    match body with
+    | [] => (st, [], TDone)
+    | b :: rest =>
+        let '(st1, ev, s) := ex tid b st in
+        match s with
+        | SCont => let '(st2, ev2, ts) := run rest st1 in (st2, ev ++ ev2, ts)
+        | SYield => (st1, ev, TSusp rest)
+        | SHang => (st1, ev, TBlocked)
+        end
+    end.
+
+(* One operation of thread [tid], including resume/spawn (channel.rs:180 resume, :209 spawn).
+   [fuel] bounds the depth of the chain "a resumes b resumes c ..." (every level marks one more
+   thread [TRunning], so the depth is bounded by the number of threads). *)
+Fixpoint exec (m : mode) (fuel : nat) (tid : nat) (b : bop) (st : state) {struct fuel}
+  : state * list event * status :=
+  match fuel with
+  | 0 => (st, [EFuel], SCont)
+  | S f =>
+      match b with
+      | BResume y =>
+          match lookup y (threads st) with
+          | None | Some TRunning => (st, [EBad], SCont)
+          | Some TDone => (st, [EResume tid y RDead], SCont)      (* thread.rs:1301 Error::Dead *)
+          | Some TBlocked => (st, [EResume tid y ROk], SCont)     (* still pending: Ok(()) *)
+          | Some (TFresh body) | Some (TSusp body) =>
+              let st0 := set_threads st (setth y TRunning (threads st)) in
+              let '(st1, ev, ts) := run_with (exec m f) (S y) body st0 in
+              (set_threads st1 (setth y ts (threads st1)), ev ++ [EResume tid y ROk], SCont)
+          end
+      | BSpawn lab body =>
+          match lookup lab (threads st) with
+          | None => (set_threads st (threads st ++ [(lab, TFresh body)]), [ESpawn tid lab], SCont)
+          | Some _ => (st, [EBad], SCont)
+          end
+      | _ => bstep m tid b st
       end
   end.
+
+(* a recursion bound that is always enough: number of threads that exist or can still be
+   spawned, plus one *)
+Fixpoint bsize (b : bop) : nat :=
+  match b with
+  | BSpawn _ body =>
+      S ((fix go (l : list bop) : nat := match l with [] => 0 | x :: r => bsize x + go r end) body)
+  | _ => 1
+  end.
+Definition body_size (body : list bop) : nat := fold_right (fun b n => bsize b + n) 0 body.
+Definition tsize (ts : tstate) : nat :=
+  match ts with TFresh body | TSusp body => body_size body | _ => 0 end.
+Definition fuel_for (st : state) (b : bop) : nat :=
+  S (S (length (threads st)) + fold_right (fun p n => tsize (snd p) + n) 0 (threads st) + bsize b).
 
 (* ---- scoping: what a Gluon closure can mention when it is created ---- *)
 Definition wf_lbody (st : state) (b : lbody) : bool :=
   match lb_bump b with None => true | Some r => Nat.ltb r (length (refs st)) end &&
   match lb_res b with RForce j => Nat.leb j (length (lazies st)) | _ => true end.
 
-Definition wf_bop (st : state) (b : bop) : bool :=
-  match b with
-  | BSend c _ | BRecv c => Nat.ltb c (length (chans st))
-  | BLoad r | BStore r _ => Nat.ltb r (length (refs st))
-  | BForce l => Nat.ltb l (length (lazies st))
-  | BYield => true
-  end.
-
 (* ---- one operation of the main thread ---- *)
 Definition step (m : mode) (st : state) (o : op) : state * list event :=
   if hung st then (st, []) else
   match o with
   | OB b =>
-      let '(st1, ev, s) := bstep m 0 b st in
+      let '(st1, ev, s) := exec m (fuel_for st b) 0 b st in
       (match s with SHang => set_hung st1 | _ => st1 end, ev)
   | ORef v => (set_refs st (refs st ++ [v]), [ERef (length (refs st)) v])
   | OLazy b =>
       if wf_lbody st b then (set_lazies st (lazies st ++ [LThunk b]), [ELazy (length (lazies st)) b])
       else (st, [EBad])
-  | OSpawn body =>
-      if forallb (wf_bop st) body
-      then (set_threads st (threads st ++ [TFresh body]), [ESpawn (length (threads st))])
-      else (st, [EBad])
-  | OResume t =>
-      match nth_error (threads st) t with
-      | None => (st, [EBad])
-      | Some TDone => (st, [EResume t RDead])
-      | Some TBlocked => (st, [EResume t ROk])
-      | Some (TFresh body) | Some (TSusp body) =>
-          let '(st1, ev, ts) := run_body m (S t) body st in
-          (set_threads st1 (upd t ts (threads st1)), ev ++ [EResume t ROk])
-      end
   end.
 
 Fixpoint run_from (m : mode) (st : state) (tr : list event) (ops : list op) : state * list event :=
